@@ -64,6 +64,20 @@ fn main() {
             let o = RunOpts { root, tier_thorough: tier == "thorough", seed, threads, runs_override: runs, quiet: flag("--quiet"), control_out: opt("--control-out"), control_in: opt("--control-in") };
             std::process::exit(engine::run_check(def, &o));
         }
+        "fp" => {
+            let id = args.get(2).cloned().unwrap_or_else(|| usage());
+            let def = defs.iter().find(|d| d.id == id).unwrap_or_else(|| usage());
+            let runs = opt("--runs").and_then(|s| s.parse().ok()).unwrap_or(2000);
+            let threads = opt("--threads").and_then(|s| s.parse().ok()).unwrap_or(16);
+            let seed = opt("--seed").and_then(|s| s.parse().ok()).unwrap_or(1);
+            println!("{}", engine::batch_fingerprint(def, seed, runs, threads).0);
+        }
+        "determinism" => {
+            let runs = opt("--runs").and_then(|s| s.parse().ok()).unwrap_or(3000);
+            let nseeds: u64 = opt("--seeds").and_then(|s| s.parse().ok()).unwrap_or(3);
+            let seeds: Vec<u64> = (0..nseeds).map(|i| 1 + i * 7919).collect();
+            std::process::exit(engine::determinism(&defs, runs, &seeds));
+        }
         "replay" => {
             let path = args.get(2).cloned().unwrap_or_else(|| usage());
             std::process::exit(engine::replay(&defs, &path, flag("--quiet")));
